@@ -420,7 +420,7 @@ func (r *Rule) transformMultiMatchArg(arg types.MatchData) ([]string, []error) {
 	return r.executeTransformationsMultimatch(arg.Value())
 }
 
-func (r *Rule) transformArg(arg types.MatchData, argIdx int, cache map[transformationKey]transformationValue) (string, []error) {
+func (r *Rule) transformArg(arg types.MatchData, _ int, cache map[transformationKey]transformationValue) (string, []error) {
 	switch {
 	case len(r.transformations) == 0:
 		return arg.Value(), nil
@@ -438,12 +438,15 @@ func (r *Rule) transformArg(arg types.MatchData, argIdx int, cache map[transform
 		// Typical case: shared prefix cached → start computing from there.
 		startIdx := 0
 		value := arg.Value()
+		in := value
+		inPtr := unsafe.StringData(in)
 		var errs []error
 
 		for i := len(r.transformationPrefixIDs) - 1; i >= 0; i-- {
 			key := transformationKey{
 				argKey:            argKeyPtr,
-				argIndex:          argIdx,
+				argValue:          inPtr,
+				argValueLen:       len(in),
 				argVariable:       arg.Variable(),
 				transformationsID: r.transformationPrefixIDs[i],
 			}
@@ -471,11 +474,12 @@ func (r *Rule) transformArg(arg types.MatchData, argIdx int, cache map[transform
 
 			key := transformationKey{
 				argKey:            argKeyPtr,
-				argIndex:          argIdx,
+				argValue:          inPtr,
+				argValueLen:       len(in),
 				argVariable:       arg.Variable(),
 				transformationsID: r.transformationPrefixIDs[i],
 			}
-			cache[key] = transformationValue{arg: value, errs: errs}
+			cache[key] = transformationValue{arg: value, errs: errs, in: in}
 		}
 
 		return value, errs
